@@ -65,4 +65,6 @@ def run(ctx):
     v, n = oracles(r['cases'])
     res['violations'] = v[:3] + res['violations']
     res['oracle_checks'] = n
-    return res
+    from props import relcorr, hashdigest
+    res = relcorr.memo_oracle(ctx, res, 'C03')
+    return hashdigest.add(ctx, res, 'C03')
